@@ -366,10 +366,21 @@ func newSettledEv(fn *ssa.Function, name string, isCall func(*ssa.Call) bool) *s
 func (s *settledEv) Name() string { return s.okEv.name + " not failed/untested" }
 func (s *settledEv) Instr(st uint8, ins ssa.Instruction) uint8 {
 	if c, ok := ins.(*ssa.Call); ok && s.isCall(c) {
+		if st&bPEND != 0 && st&bFAIL == 0 {
+			st |= bLOST // the previous call's error was never looked at (not even found non-nil, as in a retry) and is now out of reach
+		}
 		return (st | bPEND) &^ bFAIL
 	}
 	return st
 }
+
+// HoldsForwarded: the verdict at a `return err` that hands on the error of the
+// latest matching call untested — that call is the caller's business, but no
+// earlier one may have been overwritten unseen.
+func (s *settledEv) HoldsForwarded(st uint8) bool { return st&bLOST == 0 }
+
+// Carries: v may hold the error of a matching call.
+func (s *settledEv) Carries(v ssa.Value) bool { return s.carriers[v] }
 func (s *settledEv) Edge(st uint8, from *ssa.BasicBlock, succ int) uint8 {
 	if st&bPEND == 0 {
 		return st
